@@ -2,12 +2,14 @@ CONSTANT Mode = "rows"
 CONSTANT MaxSteps = 4
 CONSTANT MaxZero = 0
 CONSTANT RowCounts = {2, 3, 4, 5}
+CONSTANT PadCounts = {}
 CONSTANT NGen = 10
 SPECIFICATION Spec
 INVARIANT TypeOK
 INVARIANT Consistent
 INVARIANT GramInvariant
 INVARIANT LawC10
+INVARIANT WidenLaw
 INVARIANT ClassInvariant
 INVARIANT Export
 CHECK_DEADLOCK FALSE
